@@ -64,10 +64,11 @@ def make_jobs(tier, seed, work):
         idx += 1
         name = "mix-%s" % mode
         cfgp = os.path.join(cfgdir, name + ".yaml")
-        N.write_yaml_config(cfgp, VERSIONS, ["PROTOCOL_CONNECT", "PROTOCOL_GRPC"], [CODECS[(seed + idx) % 2]], ["COMPRESSION_IDENTITY"], REF_EXTRA)
+        # (both codecs: in the quick tier each ordinary shard has only one, and some expectations depend on the codec)
+        N.write_yaml_config(cfgp, VERSIONS, ["PROTOCOL_CONNECT", "PROTOCOL_GRPC"], CODECS, ["COMPRESSION_IDENTITY"], REF_EXTRA)
         j = {"kind": "run", "name": name + "-l1", "run": "reference " + mode + "-mode, mixed instances", "mode": mode, "peer": peer,
              "config_file": cfgp, "known_failing": [], "trace": True, "seed": seed * 1000 + idx * 10 + 1,
-             "run_patterns": ["Basic/**", "TLS Client Certs/**"], "max_servers": 12, "parallelism": 16, "level": 1}
+             "run_patterns": ["Basic/**", "TLS Client Certs/**", "Connect with GET/**"], "max_servers": 12, "parallelism": 16, "level": 1}
         j.update(LEVELS[1])
         jobs.append(j)
     for name, conf, mode, peer, kf in (
